@@ -23,9 +23,29 @@ Fixpoint scheme_rest (l : list ascii) : bool :=
   | [] => false
   | c :: r => if Ascii.eqb c ":" then true else if is_scheme_char c then scheme_rest r else false
   end.
+(* what else makes url.Parse refuse a string: a % that is not followed by two hexadecimal digits, a control character, a
+   blank in the authority (compared with net/url on generated and malformed strings by the check of C06: harness urls) *)
+Definition is_hex (c : ascii) : bool :=
+  let n := nat_of_ascii c in ((48 <=? n) && (n <=? 57)) || ((65 <=? n) && (n <=? 70)) || ((97 <=? n) && (n <=? 102)).
+Fixpoint escapes_ok (l : list ascii) : bool :=
+  match l with
+  | [] => true
+  | c :: r => if Ascii.eqb c "%" then match r with h1 :: h2 :: r' => is_hex h1 && is_hex h2 && escapes_ok r' | _ => false end
+              else escapes_ok r
+  end.
+Definition no_ctl (l : list ascii) : bool := forallb (fun c => let n := nat_of_ascii c in (32 <=? n) && negb (n =? 127)) l.
+Fixpoint authority_of (l : list ascii) : list ascii :=   (* after the first "//", up to the next / ? # *)
+  match l with
+  | a :: ((b :: r) as t) => if Ascii.eqb a "/" && Ascii.eqb b "/"
+                            then (fix upto (x : list ascii) : list ascii :=
+                                    match x with [] => [] | c :: y => if Ascii.eqb c "/" || Ascii.eqb c "?" || Ascii.eqb c "#" then [] else c :: upto y end) r
+                            else authority_of t
+  | _ => []
+  end.
 Definition has_scheme (s : string) : bool :=
-  match list_ascii_of_string s with
-  | c :: r => is_alpha c && scheme_rest r
+  let l := list_ascii_of_string s in
+  match l with
+  | c :: r => is_alpha c && scheme_rest r && escapes_ok l && no_ctl l && forallb (fun x => negb (Ascii.eqb x " ")) (authority_of l)
   | [] => false
   end.
 
